@@ -66,6 +66,22 @@ def s2t(nent, tiers):
         functions=["main, write_entry, write_file_data, terminate_archive (bin/sqfs2tar/src/sqfs2tar.c)"],
         bound="%d image entr%s of symbolic kind (file, hard link, directory, symlink, socket), compressor / hard link filter / --no-skip symbolic, up to 3 splices, every step may fail" % (nent, "y" if nent == 1 else "ies"))
 OBLIGATIONS += [s2t(1, ["quick", "thorough"]), s2t(2, ["thorough"])]
+def fill(nl, adir, tiers, timeout=600):
+    sizes = ",".join(str(x) for x in sorted(set(list(range(1, 2 * nl + 4)) + [16])))
+    return dict(name="unpack_data_paths_nl%d_%s" % (nl, "dir" if adir else "top"), harness="harness/C06_fill.c",
+        sources=["lib/common/src/dir_tree.c", "lib/util/src/canonicalize_name.c", "lib/util/src/filename_sane.c", "lib/sqfs/src/misc.c", "lib/sqfs/src/inode.c"],
+        included_sources=["bin/rdsquashfs/src/fill_files.c"], incdirs=["bin/rdsquashfs/src"], pre_include=["stubs/vp_alloc_sizes.h"],
+        defines=dict(NL=nl, ADIR=adir, VP_ALLOC_SIZES=sizes, PRESET_CAP=1), unwind=2 * nl + 6, unwindset={"gen_file_list_dfs": 4, "vp_malloc.0": 2 * nl + 6, "vp_realloc.0": 2 * nl + 6, "fill_files.0": 3, "fill_files.1": 5, "clear_file_list.0": 3},
+        leak=True, tiers=tiers, timeout=timeout, fp_map={"destroy": ["d_out", "d_in"], "flush": ["flush_stub"]}, reach=["not_opened", "unpacked", "failure"],
+        functions=["fill_unpacked_files, gen_file_list_dfs, add_file, fill_files, clear_file_list (bin/rdsquashfs/src/fill_files.c)",
+                   "sqfs_tree_node_get_path (lib/common/src/dir_tree.c)", "canonicalize_name", "is_filename_sane"],
+        bound="tree root -> A%s; names of %d symbolic bytes each (all byte values incl. NUL, '/', '.'); open, stream creation, up to 3 splices and flush may fail" % (" (directory) -> B" if adir else "", nl))
+OBLIGATIONS += [fill(1, 0, ["quick", "thorough"]), fill(1, 1, ["quick", "thorough"]), fill(2, 0, ["thorough"])]
+OBLIGATIONS.append(dict(name="unpack_file_list_growth", harness="harness/C06_fill.c",
+    sources=["lib/common/src/dir_tree.c", "lib/util/src/canonicalize_name.c", "lib/util/src/filename_sane.c", "lib/sqfs/src/misc.c", "lib/sqfs/src/inode.c"],
+    included_sources=["bin/rdsquashfs/src/fill_files.c"], incdirs=["bin/rdsquashfs/src"], defines=dict(NL=1, ADIR=0, GROW=1), unwind=8, malloc_fail=True,
+    leak=True, tiers=["quick", "thorough"], timeout=300, fp_map={"destroy": ["d_out", "d_in"], "flush": ["flush_stub"]}, reach=["grown", "alloc_failed"],
+    functions=["add_file, clear_file_list (bin/rdsquashfs/src/fill_files.c)"], bound="first insertion into the empty list (256 slots), any allocation may fail"))
 FPIO = {'read_at': ['vp_file_read_at'], 'write_at': ['vp_file_write_at'], 'truncate': ['vp_file_truncate'], 'get_size': ['vp_file_get_size'], 'do_block': ['cw_do_block', 'vp_cmp_do_block']}
 OBLIGATIONS.append(dict(name="blockwriter_io_failure_h1_nb1", harness="harness/C08_blockwriter.c", sources=["lib/util/src/file_cmp.c", "lib/util/src/array.c"],
     included_sources=["lib/sqfs/src/block_writer.c"], defines=dict(H=1, NB=1, SZ=2, MODE=3), unwind=10, tiers=["quick", "thorough"], timeout=300, fp_map=FPIO,
